@@ -109,8 +109,20 @@ func main() {
 				}
 			}
 			res = runFSParent(o, stream, os.Args[2:])
+			if o.mode == "roundtrip" && has(o.oracles, "C03") {
+				// the compressors alone, with the tape-specific parameters no plain file reaches
+				for _, m := range codecMatrix(o.seed) {
+					of := OracleFail{Property: "C03", Hist: "codec-matrix", What: m, Calls: []string{m}}
+					of.Known = o.known.ExplainInput("C03", m)
+					if of.Known != "" {
+						res.KnownHits[of.Known]++
+					}
+					res.OracleFails = append(res.OracleFails, of)
+				}
+				res.OracleChecks["C03 codec matrix"] = 8 * 3 * 2 * 6
+			}
 		}
-	case "forge":
+	case "forge", "leak":
 		o := fsOpts{seed: *seed, n: *n, length: *length, workers: *workers, driver: *driver, rs: ints(*rss), scratch: scratch, known: loadKnown(*knownPath),
 			thoroughCuts: *allCuts, pipes: splitSemi(*pipes), keyDir: *keyDir}
 		o.watchdog = time.Duration(*wd) * time.Second
@@ -120,7 +132,11 @@ func main() {
 				os.Exit(2)
 			}
 		}
-		res = runForge(o)
+		if stream == "leak" {
+			res = runLeak(o)
+		} else {
+			res = runForge(o)
+		}
 	case "keys":
 		o := fsOpts{seed: *seed, n: *n, workers: *workers, driver: *driver, known: loadKnown(*knownPath)}
 		res = runKeys(o)
@@ -346,8 +362,28 @@ func runFS(o fsOpts) *result {
 					fr := rand.New(rand.NewSource(o.seed*1_000_003 + int64(j)))
 					fg = newForeignGen(fr, h.GenForeign(fr, j))
 				}
+				var rg *rtGen
+				rtReopened := 0
+				if o.mode == "roundtrip" {
+					rg = newRtGen(rand.New(rand.NewSource(o.seed*1_000_003+int64(j))), c.RS)
+				}
 				next := func() (h.Call, bool) {
 					i++
+					if rg != nil {
+						switch {
+						case i == 1 || rtReopened == 1:
+							if rtReopened == 1 {
+								rtReopened = 2
+							}
+							return initCall, true
+						case rtReopened == 0 && i > o.length && len(rg.pending) == 0:
+							rtReopened = 1
+							return h.Call{Method: "@reopen", Args: []string{"index=drop", "ro=0"}}, true
+						case rtReopened == 2:
+							return h.Call{}, false
+						}
+						return rg.Next(), true
+					}
 					if fg != nil {
 						switch {
 						case i == 1:
@@ -496,6 +532,17 @@ func runFS(o fsOpts) *result {
 					fmt.Printf("P %d %d\n", j, i)
 				}
 				hook := oracleHook(o, dir)
+				if rg != nil {
+					inner := hook
+					hook = func(i int, s *h.Session, st *h.Step) {
+						if inner != nil {
+							inner(i, s, st)
+						}
+						if has(o.oracles, "C03") {
+							rg.hook(i, s, st)
+						}
+					}
+				}
 				if fg != nil {
 					inner := hook
 					hook = func(i int, s *h.Session, st *h.Step) {
